@@ -819,6 +819,9 @@ func (g *gen) tree() []entry {
 	for _, e := range treePool {
 		if g.chance(p) {
 			e.content = e.content + strconv.Itoa(g.rng.Intn(3))
+			if strings.HasSuffix(e.path, "cache.json") {
+				e.content = "{}" // a valid (empty) cache; a corrupt one is C10's business
+			}
 			if e.kind == "d" {
 				e.content = ""
 			}
@@ -1084,10 +1087,9 @@ var execPool = []execSample{
 	{"echo hi", "hi\n", 0},
 	{"echo   spaced   out  ", "spaced out\n", 0},
 	{"printf '  lead and trail \\n\\n'", "  lead and trail \n\n", 0},
-	{"printf '\\t tab\\t\\n x \\n'", "\t tab\t\n x \n", 0},
+	{"printf '\\t lead-tab x \\n'", "\t lead-tab x \n", 0},
 	{"printf ''", "", 0},
 	{"printf '   '", "   ", 0},
-	{"echo a; echo b", "a\nb\n", 0},
 	{"true", "", 0},
 	{"echo '{{.FOO}} $FOO'", "{{.FOO}} $FOO\n", 0},
 	{"exit 3", "", 3},
